@@ -86,10 +86,11 @@ def render_rich(rng, g, kind, o, pad=0):
         precs = []
     for k_, toks in precs:
         out.append("%%%s %s" % (k_, " ".join(q(t) for t in toks)))
-    if o.avoid_insert and g.tokens:
-        out.append("%%avoid_insert %s" % " ".join(q(t) for t in g.tokens if rng.random() < 0.6 or t == g.tokens[0]))
+    used = g.used_tokens()
+    if o.avoid_insert and used:
+        out.append("%%avoid_insert %s" % " ".join(q(t) for t in used if rng.random() < 0.6 or t == used[0]))
     if o.epp:
-        for t in g.tokens:
+        for t in used:
             if rng.random() < 0.7:
                 out.append("%%epp %s \"%s\"" % (q(t), rng.choice(["plus é", "Ω", "tok %s" % t, "日本 語", "x"])))
     if o.expect:
@@ -190,6 +191,11 @@ def gen_cases(ctx, n_random):
         name, f = rng.choices(fams, [2, 4, 3, 4, 1, 2])[0]
         g = f()
         if g is None:
+            continue
+        if g.derives_cycle():
+            # a rule deriving just itself makes any Yacc-style parser loop (C07's domain): the parses
+            # could not be compared.  Residual non-returning parses are resolved one side at a time below.
+            ctx.count("skipped_cyclic")
             continue
         kind = rng.choice("GGUUON")
         o = Opts(**{k: rng.random() < 0.5 for k in Opts.KEYS})
@@ -317,28 +323,36 @@ def expected_from_decoded(gd, sd, nst):
     e["g.programs"] = txt(gd["programs"])
     e["g.expect"] = "-" if gd["expect"] is None else str(gd["expect"])
     e["g.expectrr"] = "-" if gd["expectrr"] is None else str(gd["expectrr"])
+    def put(key, lst, i, f):
+        # arrays shorter than the index range (e.g. no action slot for the start production):
+        # the API panics there on both sides; nothing to predict
+        if i < len(lst):
+            e[key] = f(lst[i])
+
     for r in range(nr):
-        e["g.rule.%d.name" % r] = txt(gd["rule_names"][r][0])
-        e["g.rule.%d.name_span" % r] = span(gd["rule_names"][r][1])
-        e["g.rule.%d.prods" % r] = ",".join(str(p) for p in gd["rules_prods"][r])
-        e["g.rule.%d.actiontype" % r] = txt(gd["actiontypes"][r])
+        put("g.rule.%d.name" % r, gd["rule_names"], r, lambda x: txt(x[0]))
+        put("g.rule.%d.name_span" % r, gd["rule_names"], r, lambda x: span(x[1]))
+        put("g.rule.%d.prods" % r, gd["rules_prods"], r, lambda x: ",".join(str(p) for p in x))
+        put("g.rule.%d.actiontype" % r, gd["actiontypes"], r, txt)
+    ai = gd["avoid_insert"]
     for t in range(nt):
-        tn = gd["token_names"][t]
-        e["g.tok.%d.name" % t] = "-" if tn is None else txt(tn[1])
-        e["g.tok.%d.span" % t] = "-" if tn is None else span(tn[0])
-        e["g.tok.%d.prec" % t] = prec(gd["token_precs"][t])
-        e["g.tok.%d.epp" % t] = txt(gd["token_epp"][t])
-        ai = gd["avoid_insert"]
-        e["g.tok.%d.avoid_insert" % t] = "0" if ai is None else str(bit(ai, t))
+        put("g.tok.%d.name" % t, gd["token_names"], t, lambda tn: "-" if tn is None else txt(tn[1]))
+        put("g.tok.%d.span" % t, gd["token_names"], t, lambda tn: "-" if tn is None else span(tn[0]))
+        put("g.tok.%d.prec" % t, gd["token_precs"], t, prec)
+        put("g.tok.%d.epp" % t, gd["token_epp"], t, txt)
+        if ai is None:
+            e["g.tok.%d.avoid_insert" % t] = "0"
+        elif t < ai["len"]:
+            e["g.tok.%d.avoid_insert" % t] = str(bit(ai, t))
     for p in range(np_):
-        e["g.prod.%d.syms" % p] = ",".join(str(2 * s[1] + (1 if s[0] == "Rule" else 0)) for s in gd["prods"][p])
-        e["g.prod.%d.len" % p] = str(len(gd["prods"][p]))
-        e["g.prod.%d.rule" % p] = str(gd["prods_rules"][p])
-        e["g.prod.%d.prec" % p] = prec(gd["prod_precs"][p])
-        e["g.prod.%d.action" % p] = txt(gd["actions"][p])
-        e["g.prod.%d.action_span" % p] = span(gd["action_spans"][p])
-        if p < len(gd["prod_spans"]):
-            e["g.prod.%d.span" % p] = span(gd["prod_spans"][p])
+        put("g.prod.%d.syms" % p, gd["prods"], p,
+            lambda x: ",".join(str(2 * s[1] + (1 if s[0] == "Rule" else 0)) for s in x))
+        put("g.prod.%d.len" % p, gd["prods"], p, lambda x: str(len(x)))
+        put("g.prod.%d.rule" % p, gd["prods_rules"], p, str)
+        put("g.prod.%d.prec" % p, gd["prod_precs"], p, prec)
+        put("g.prod.%d.action" % p, gd["actions"], p, txt)
+        put("g.prod.%d.action_span" % p, gd["action_spans"], p, span)
+        put("g.prod.%d.span" % p, gd["prod_spans"], p, span)
     e["s.start_state"] = str(sd["start_state"])
     snt, snp = sd["tokens_len"], sd["prods_len"]
     for s in range(nst):
@@ -367,12 +381,154 @@ def vob_lengths(gd, sd):
     return ls
 
 
+# ------------------------------------------------------------------ call sites in ctbuilder.rs
+
+def ctbuilder_pairing():
+    """The harness repeats the two call sites of ctbuilder.rs (serialise at build time, `_reconstitute`
+    in generated code) instead of running them (they sit inside the code generator).  Read them back
+    from the source: per SerialisationFormat the configuration used for writing, the one handed to
+    `_reconstitute` by generated code, and the body of `_reconstitute`.  Returns (facts, problems)."""
+    import re
+    path = os.path.join(core.REPO, "lrpar/src/lib/ctbuilder.rs")
+    src = open(path, encoding="utf-8").read()
+    facts, problems, notes = {}, [], []
+    for m in re.finditer(r"SerialisationFormat::(FixedSizeInteger|VariableSizedInteger)\s*=>\s*\{", src):
+        depth, j = 1, m.end()
+        while j < len(src) and depth:
+            depth += {"{": 1, "}": -1}.get(src[j], 0)
+            j += 1
+        block = src[m.end():j - 1]
+        encs = sorted(set(re.findall(r"with_(fixint|varint)_encoding\s*\(\)", block)))
+        if "_reconstitute" in block:
+            side = "read"
+            ok = re.search(r"_reconstitute\s*\(\s*__GRM_DATA\s*,\s*__STABLE_DATA\s*,[^;{}]*Configuration::default\(\)\s*\.\s*with_\w+_encoding\(\)\s*\)", block)
+        elif "serialize" in block:
+            side = "write"
+            ok = (re.search(r"Configuration::default\(\)\s*\.\s*with_\w+_encoding\(\)", block)
+                  and re.search(r"config::serialize\s*\(\s*grm\s*,\s*config\s*\)", block)
+                  and re.search(r"config::serialize\s*\(\s*stable\s*,\s*config\s*\)", block))
+        else:
+            continue
+        facts.setdefault(m.group(1), {}).setdefault(side, []).append(encs)
+        if not ok:
+            notes.append("%s/%s: call site has a different shape from the one the harness repeats" % (m.group(1), side))
+    want = {"FixedSizeInteger": ["fixint"], "VariableSizedInteger": ["varint"]}
+    for fmt, enc in want.items():
+        f = facts.get(fmt, {})
+        if "write" not in f or "read" not in f:
+            notes.append("%s: call sites not recognised" % fmt)
+        elif f["write"] != [enc] or f["read"] != [enc]:
+            # a definite disagreement between what is written and what generated code reads back
+            problems.append("%s: written with %s, read back with %s (the harness uses %s for both)"
+                            % (fmt, f["write"], f["read"], enc))
+    m = re.search(r"pub fn _reconstitute\b.*?\n\}", src, re.S)
+    body = m.group(0) if m else ""
+    if not (re.search(r"deserialize_from\s*\(\s*grm_buf\s*,\s*config\s*\)\s*\.unwrap\(\)", body)
+            and re.search(r"deserialize_from\s*\(\s*stable_buf\s*,\s*config\s*\)\s*\.unwrap\(\)", body)):
+        notes.append("_reconstitute is not literally `deserialize_from(buf, config).unwrap()` for both buffers (it is CALLED by the harness, so this is informational)")
+    facts["notes"] = notes
+    return facts, problems
+
+
+# ------------------------------------------------------------------ transcripts
+
+def parse_transcript(out):
+    secs = out.split(" # ")
+    d = {"raw0": secs[0], "O": {}, "R": {}, "DIFF": [], "okeys": [], "rkeys": []}
+    for s in secs:
+        if s.startswith("BG "):
+            d["BG"] = s[3:]
+        elif s.startswith("BS "):
+            d["BS"] = s[3:]
+        elif s.startswith("NST "):
+            d["NST"] = int(s[4:])
+        elif s.startswith("O "):
+            k, _, v = s[2:].partition(" ")
+            d["O"][k] = v
+            d["okeys"].append(k)
+        elif s.startswith("R "):
+            k, _, v = s[2:].partition(" ")
+            d["R"][k] = v
+            d["rkeys"].append(k)
+        elif s.startswith("DIFF ") or s.startswith("RECONPANIC"):
+            d["DIFF"].append(s)
+    return d
+
+
+def resolve_hangs(ctx, exe, cases, idx, parsed):
+    """A case whose transcript did not come back (a parse that does not return: the plain LR loop can
+    repeat an epsilon reduction for ever on tables with resolved conflicts — C07's subject) is redone:
+    once without inputs (all queries), then every input separately on the originals only and on the
+    reconstituted objects only.  'Does not return' is an answer like any other: it must be the same
+    on both sides."""
+    todo = [li for li, d in enumerate(parsed) if d["raw0"].split()[:1] in (["HANG"], ["CRASH"])]
+    if not todo:
+        return
+    relines, ref = [], []
+    for li in todo:
+        ci, w, e = idx[li]
+        label, kind, src, o, g, inputs = cases[ci]
+        head = "%s %s %s %s" % (kind, src.encode().hex(), w, e)
+        relines.append(head)
+        ref.append((li, None, None))
+        for ii, inp in enumerate(inputs):
+            toks = " ".join(t.encode().hex() for t in inp)
+            for side in "or":
+                relines.append("%s %s ; %s" % (head, side, toks))
+                ref.append((li, ii, side))
+    outs = core.run_lines([exe], relines, env={"GVH_CASE_TIMEOUT_MS": "4000"})
+    merged = {}
+    for (li, ii, side), out in zip(ref, outs):
+        if ii is None:
+            merged[li] = parse_transcript(out)
+            continue
+        d = merged[li]
+        if "BG" not in d:
+            continue
+        if out.split()[:1] in (["HANG"], ["CRASH"]):
+            val = "DOES-NOT-RETURN"
+        else:
+            t = parse_transcript(out)
+            d["DIFF"] += [x for x in t["DIFF"] if x not in d["DIFF"]]
+            val = (t["O"] if side == "o" else t["R"]).get("parse.0", "INPUT-DROPPED")
+        key = "parse.%d" % ii
+        if side == "o":
+            d["O"][key] = val
+            d["okeys"].append(key)
+        else:
+            d["R"][key] = val
+            d["rkeys"].append(key)
+            if d["O"].get(key) == "DOES-NOT-RETURN" and val == "DOES-NOT-RETURN":
+                ctx.count("parse_does_not_return_on_both")
+    for li in todo:
+        parsed[li] = merged[li]
+        ctx.count("case_redone_after_hang")
+
+
 # ------------------------------------------------------------------ the check
 
 def run(ctx):
-    ctx.gate = core.proof_gate("C14", pregen=pregen)
-    for _ in ctx.gate["theorems"]:
-        ctx.oblige(True)
+    gate_err = None
+    try:
+        ctx.gate = core.proof_gate("C14", pregen=pregen)
+        for _ in ctx.gate["theorems"]:
+            ctx.oblige(True)
+    except core.GateFailure as g:
+        if g.what == "schema-translation" or not os.path.exists(NAMES_JSON):
+            raise
+        # the proof no longer checks (e.g. the generated schema is not well-formed): still search
+        # for a failing input with the differential part, then report the broken gate
+        gate_err = g
+    try:
+        differential(ctx)
+    except core.GateFailure:
+        if gate_err is None:
+            raise
+    if gate_err is not None:
+        raise gate_err
+
+
+def differential(ctx):
     meta = json.load(open(NAMES_JSON))
     names, info = meta["names"], meta["info"]
     exe = core.build_harness("c14")
@@ -386,30 +542,11 @@ def run(ctx):
             lines.append("%s %s %s %s%s" % (kind, src.encode().hex(), w, e, tail))
             idx.append((ci, w, e))
     impl = core.run_lines([exe], lines)
+    parsed = [parse_transcript(out) for out in impl]
+    resolve_hangs(ctx, exe, cases, idx, parsed)
     # model side: decode both blobs of every case that produced bytes
     mlines, mref = [], []
-    parsed = []
-    for li, out in enumerate(impl):
-        secs = out.split(" # ")
-        d = {"raw0": secs[0], "O": {}, "R": {}, "DIFF": [], "okeys": [], "rkeys": []}
-        for s in secs:
-            if s.startswith("BG "):
-                d["BG"] = s[3:]
-            elif s.startswith("BS "):
-                d["BS"] = s[3:]
-            elif s.startswith("NST "):
-                d["NST"] = int(s[4:])
-            elif s.startswith("O "):
-                k, _, v = s[2:].partition(" ")
-                d["O"][k] = v
-                d["okeys"].append(k)
-            elif s.startswith("R "):
-                k, _, v = s[2:].partition(" ")
-                d["R"][k] = v
-                d["rkeys"].append(k)
-            elif s.startswith("DIFF ") or s.startswith("RECONPANIC"):
-                d["DIFF"].append(s)
-        parsed.append(d)
+    for li, d in enumerate(parsed):
         if "BG" in d and "BS" in d:
             ci, w, e = idx[li]
             mlines.append("G %s %s %s" % (w, e, d["BG"] or "-"))
@@ -429,7 +566,8 @@ def run(ctx):
         conf = "%s/%s" % (w, e)
         base = {"grammar": src if len(src) < 4000 else src[:1500] + "...(%d bytes)" % len(src), "yacckind": kind,
                 "storage_width": int(w), "encoding": e, "options": o.tag(), "case": label,
-                "replay_cmd": "echo '<case line>' | .work/target/release/c14   (case line = kind hexsrc width enc ; hex token names)"}
+                "case_line": lines[li] if len(lines[li]) < 30000 else "(long: kind hex(source) width enc ; hex token names ...)",
+                "replay_cmd": "echo \"$case_line\" | .work/target/release/c14   # sections: O = originals, R = reconstituted, DIFF = differences"}
         if "BG" not in d:
             head = d["raw0"].split()[0] if d["raw0"] else "EMPTY"
             ctx.count("not_built_%s_w%s" % (head, w))
@@ -513,6 +651,13 @@ def run(ctx):
                  {"case": label, "yacckind": kind, "options(%s)" % ",".join(Opts.KEYS): o.tag(), "width": w, "encoding": e,
                   "states": d["NST"], "grammar_bytes": len(d["BG"]) // 2, "table_bytes": len(d["BS"]) // 2,
                   "queries": len(d["okeys"]), "parses": nparse_acc + nparse_rej, "grammar": src[:300]})
+    facts, pproblems = ctbuilder_pairing()
+    ctx.coverage["ctbuilder_call_sites"] = facts
+    if pproblems:
+        ctx.violation({"what": "the build-time / start-up call sites in lrpar/src/lib/ctbuilder.rs are no longer the ones the harness "
+                               "repeats (the format written need not be the format read back)", "problems": pproblems,
+                       "call_sites": facts}, no_input=True)
+    ctx.oblige(not pproblems, "ctbuilder call sites")
     ctx.oblige(n_diff == 0, "no query differs")
     ctx.oblige(n_corr_bad == 0, "decoder correspondence")
     ctx.coverage["bit_vector_lengths"] = vob_mod
